@@ -623,3 +623,34 @@ def pass_input_output_path(i1: int, i3: int, s1: int, ii: int, oi: int) -> bool:
     if res is ref.MISSING:
         return got == ("failed", "States.Runtime")
     return got == ("next", res)
+
+
+# member names that are not identifiers, addressed in bracket notation ($['a.b']): legal member names of a JSON object
+ODD_NAMES = ["plain", "with space", "a.b", "a$b", "1", "a:b", "a[0]", "x-y"]
+
+
+@condition(timeout={"quick": 60, "thorough": 120}, functions=["apply_resultpath (bracket notation with member names that are not identifiers)", "apply_path (reading the same path back)"])
+def write_bracket_odd_names(ki: int, under: bool, read_back: bool) -> bool:
+    """
+    requires: 0 <= ki < len(ODD_NAMES)
+    ensures: _
+    """
+    import copy
+    key = pick(ODD_NAMES, ki)
+    doc = {"keep": 1, "a": {"b": "precious"}, "x": {"keep": 2}}
+    before = copy.deepcopy(doc)
+    path = ("$.x['%s']" if under else "$['%s']") % key
+    try:
+        out = sp.apply_resultpath(doc, {"r": 1}, path)
+    except ResultPathMatchFailure:
+        return False                       # the path is placeable: the member simply does not exist yet
+    want = copy.deepcopy(before)
+    (want["x"] if under else want)[key] = {"r": 1}
+    if out != want:
+        return False
+    if read_back:
+        try:
+            return sp.apply_path(out, {}, path) == {"r": 1}
+        except Exception:
+            return False
+    return True
